@@ -92,6 +92,10 @@ struct bufferevent_filtered {
 	/** True while the input filter is running: whatever the filter's
 	 * writes to our input buffer trigger must not run it again. */
 	unsigned processing_input;
+	/** The event (EOF|READING) the underlying bufferevent reported while
+	 * nobody was reading here; told to our user when reading is enabled
+	 * again, after the data still held below.  0 if none. */
+	short eof_held;
 
 	/** Function to free context when we're done. */
 	void (*free_context)(void *);
@@ -268,6 +272,10 @@ be_filter_destruct(struct bufferevent *bev)
 		evbuffer_remove_cb_entry(bev->output, bevf->outbuf_cb);
 }
 
+static enum bufferevent_filter_result be_filter_process_input(
+	struct bufferevent_filtered *bevf, enum bufferevent_flush_mode state,
+	int *processed_out);
+
 static int
 be_filter_enable(struct bufferevent *bev, short event)
 {
@@ -281,6 +289,20 @@ be_filter_enable(struct bufferevent *bev, short event)
 		BEV_RESET_GENERIC_READ_TIMEOUT(bev);
 		bufferevent_unsuspend_read_(bevf->underlying,
 		    BEV_SUSPEND_FILT_READ);
+		if (bevf->eof_held) {
+			/* The stream below ended while reading was disabled:
+			 * hand up what it still holds, then say so. */
+			short what = bevf->eof_held;
+			int processed_any = 0;
+			bevf->eof_held = 0;
+			be_filter_process_input(bevf, BEV_FINISHED,
+			    &processed_any);
+			if (processed_any)
+				bufferevent_trigger_nolock_(bev, EV_READ,
+				    BEV_TRIG_DEFER_CALLBACKS);
+			bufferevent_run_eventcb_(bev, what,
+			    BEV_TRIG_DEFER_CALLBACKS);
+		}
 	}
 	return 0;
 }
@@ -596,9 +618,17 @@ be_filter_eventcb(struct bufferevent *underlying, short what, void *me_)
 			 * holds must reach our input before the EOF does. */
 			int processed_any = 0;
 			bevf->got_eof = 1;
-			if (bev->enabled & EV_READ)
-				be_filter_process_input(bevf, BEV_FINISHED,
-				    &processed_any);
+			if (!(bev->enabled & EV_READ)) {
+				/* Nobody is reading.  A socket only notices
+				 * the end of its stream when it reads; here
+				 * the data below would otherwise arrive after
+				 * the EOF it belongs in front of. */
+				bevf->eof_held = what;
+				BEV_UNLOCK(bev);
+				return;
+			}
+			be_filter_process_input(bevf, BEV_FINISHED,
+			    &processed_any);
 			if (processed_any)
 				bufferevent_trigger_nolock_(bev, EV_READ, 0);
 		}
